@@ -419,7 +419,17 @@ def release_is_contiguous(ctx):
         for e, pol in atoms:
             if not (isinstance(e, ast.Compare) and len(e.ops) == 1):
                 continue
-            l, op, r = q.inline_locals(f, e.left), e.ops[0], q.inline_locals(f, e.comparators[0])
+            def _arith(x):
+                # only arithmetic locals are unfolded (seen = self._next_offset - next_offset); data-carrying names stay symbols
+                class T(ast.NodeTransformer):
+                    def visit_Name(self, node):
+                        d = q.single_def(f, node.id) if isinstance(node.ctx, ast.Load) and node.id not in f.params else None
+                        if isinstance(d, ast.BinOp) and len(q.local_defs(f, node.id)) == 1 and all(isinstance(y, (ast.BinOp, ast.Name, ast.Attribute, ast.Constant, ast.operator, ast.expr_context)) for y in ast.walk(d)):
+                            return d
+                        return node
+                import copy
+                return T().visit(copy.deepcopy(x))
+            l, op, r = _arith(e.left), e.ops[0], _arith(e.comparators[0])
             if (isinstance(op, (ast.Gt, ast.GtE)) and pol) or (isinstance(op, (ast.Lt, ast.LtE)) and not pol):
                 l, r = r, l
             elif not ((isinstance(op, (ast.Lt, ast.LtE)) and pol) or (isinstance(op, (ast.Gt, ast.GtE)) and not pol)):
